@@ -3,7 +3,7 @@
    translated from nixio/file.py on every run (Gen/FileConsts.v): if flush() stopped calling the
    HDF5 flush, these proofs would no longer check.  What H5Fflush / H5Fclose do to the bytes on
    disk is the model's assumption (trusted base) and is what the kill experiment exercises. *)
-From NixV Require Import Base.Prelude Gen.FileConsts Pure.Durable Proofs.DurableProofs.
+From NixV Require Import Base.Prelude Gen.FileConsts Pure.Durable Proofs.DurableProofs Proofs.DurableProofs2.
 
 (* any history of writes, reads and earlier flushes; then flush(); then only reads; then SIGKILL:
    a later open finds exactly the content at the moment of the flush - which is what the writes
@@ -32,3 +32,24 @@ Example c17_no_flush_no_promise :
   after_kill nat (drun nat [DWrite nat S] (mkD nat 0 (Some 0) true)) = None /\
   after_kill nat (drun nat [DWrite nat S; DFlush nat] (mkD nat 0 (Some 0) true)) = Some 1.
 Proof. split; reflexivity. Qed.
+
+(* any history, close(), then ANY later calls (all refused on a closed file), then the kill: a later
+   open finds the content at the close *)
+Theorem c17_close_then_anything : forall (content : Type) h ops (s0 : dstate content),
+  is_open _ s0 = true -> (forall o, In o h -> o <> DClose _) ->
+  after_kill _ (drun _ (h ++ [DClose _] ++ ops) s0) = Some (apply_writes _ h (live _ s0)).
+Proof. exact close_then_anything. Qed.
+Print Assumptions c17_close_then_anything.
+
+(* flush() twice is flush() once *)
+Theorem c17_flush_idempotent : forall (content : Type) (s : dstate content),
+  dstep _ (dstep _ s (DFlush _)) (DFlush _) = dstep _ s (DFlush _).
+Proof. exact flush_idempotent. Qed.
+Print Assumptions c17_flush_idempotent.
+
+(* whatever File.flush / File.close are translated to, the model never promises an OLD content:
+   from a state whose disk is current or unspecified, every history leaves it current or unspecified *)
+Theorem c17_never_stale : forall (content : Type) ops (s : dstate content),
+  fresh _ s -> fresh _ (drun _ ops s).
+Proof. exact never_stale. Qed.
+Print Assumptions c17_never_stale.
